@@ -57,7 +57,8 @@ Proof. vm_compute. reflexivity. Qed.
 
 (* ------------------------------------------------------------------ footnotes *)
 From Coq Require Import Permutation Sorted.
-From V Require Import Model.Footnotes Spec.FootnoteSpec Proofs.FootnoteProofs Proofs.FootnoteOrder Proofs.FootnoteResolve Proofs.FootnoteOmit Proofs.FootnoteOnce.
+From V Require Import Model.Footnotes Spec.FootnoteSpec Proofs.FootnoteProofs Proofs.FootnoteOrder Proofs.FootnoteResolve Proofs.FootnoteOmit Proofs.FootnoteOnce Proofs.FootnoteNumbers Proofs.FootnoteEmit
+  Proofs.FootnoteResolveAll.
 From V Require Spec.Valid.
 
 (* sort_perm_indep: the tree returned by process does not depend on the order in which the HashMap's
@@ -189,7 +190,41 @@ Example C15_definitions_once_example :
   defs_once_and_referenced (process idb idb idp w_order) = true.
 Proof. vm_compute. split; reflexivity. Qed.
 
-(* NOT proved as a whole (the second conjunct IS C15_definitions_once_and_referenced; kept visible; evaluated on every real final tree and every model result by the check):
+(* "every footnote reference points to a definition that is rendered exactly once ... numbered 1..n": the statement this
+   file kept open as C15_ix_contiguous_full_statement, PROVED with the premise that was missing there (reference nodes
+   are leaves; C04's leaves_ok implies it: C15_numbered_in_order_valid_trees) and without no_nested_defs — every
+   reference node of the processed tree carries a number k >= 1 such that the k-th definition at the tail of the root
+   exists and has the reference's name; those definitions have pairwise distinct names and each is referenced. *)
+Theorem C15_ix_contiguous : forall (fold pres : bytes -> bytes) (perm : list fdef -> list fdef) root,
+  (forall x, pres (pres x) = pres x) -> (forall x y, pres x = pres y -> fold x = fold y) ->
+  (forall m, Permutation (perm m) m) -> is_def root = false -> refs_leaf root = true ->
+  let t := process fold pres perm root in
+  refs_resolve t = true /\ defs_once_and_referenced t = true.
+Proof. intros fold pres perm root I C P D L. exact (process_ix_contiguous fold pres I perm P root C D L). Qed.
+Print Assumptions C15_ix_contiguous.
+
+(* the definitions process appends carry the numbers 1, 2, .., n in this order (n = the walk's counter) *)
+Theorem C15_appended_numbers_1_to_n : forall (fold pres : bytes -> bytes) (perm : list fdef -> list fdef) root,
+  (forall m, Permutation (perm m) m) ->
+  let r := refs fold pres root (collect fold pres (top_defs root) 0 [], 0%N) in
+  map f_ix (filter has_ix (sort_by_ix (perm (fst (snd r))))) = map Some (nseq 1 (N.to_nat (snd (snd r)))).
+Proof. intros fold pres perm root P. exact (appended_numbers_1_to_n fold pres perm P root). Qed.
+Print Assumptions C15_appended_numbers_1_to_n.
+
+(* without the leaf premise the open statement is false of the model (ill-shaped tree: an unresolved reference with a
+   child reference); with it, it is C15_ix_contiguous *)
+Theorem C15_ix_contiguous_needs_leaf_premise :
+  is_def w_child_ref = false /\ no_nested_defs w_child_ref = true /\ refs_leaf w_child_ref = false /\
+  refs_resolve (process idb idb idp w_child_ref) = false.
+Proof. exact w_child_ref_facts. Qed.
+Print Assumptions C15_ix_contiguous_needs_leaf_premise.
+
+Example C15_ix_contiguous_example :
+  refs_leaf w_order = true /\ is_def w_order = false /\
+  refs_resolve (process idb idb idp w_order) = true /\ defs_once_and_referenced (process idb idb idp w_order) = true.
+Proof. vm_compute. repeat split; reflexivity. Qed.
+
+(* Kept for the record: the statement as first written — FALSE without the leaf premise (C15_ix_contiguous_needs_leaf_premise), proved with it (C15_ix_contiguous); evaluated on every real final tree and every model result by the check):
    every reference left in the tree carries the number and name of exactly one appended definition,
    unreferenced definitions are absent, definitions sit at the tail of the root *)
 Definition C15_ix_contiguous_full_statement : Prop :=
